@@ -186,13 +186,14 @@ class Parameter(ABC):
 
     async def set(self, value: Any, retries: int = 5, timeout: float = 5.0) -> bool:
         """Set a parameter value."""
-        if (value := _normalize_parameter_value(value)) == self.values.value:
-            return True
-
+        value = _normalize_parameter_value(value)
         if value < self.values.min_value or value > self.values.max_value:
             raise ValueError(
                 f"Value must be between '{self.min_value}' and '{self.max_value}'"
             )
+
+        if value == self.values.value:
+            return True
 
         self._previous_value = self._values.value
         self._values.value = value
